@@ -217,10 +217,16 @@ def rules(fx, rep):
                         bad.append('Some(%r) with %d inversions below' % (payload, len(invs)))
                         continue
                     n_some += 1
-                    lhs = PR.t_mul(A, payload)
-                    rhs = PR.embed(PR.t_mul(invs[0][1], invs[0][2]), A)
+                    # a special-case path (one that assumed coefficients of the operand to be zero) is judged under its
+                    # assumption, like the fast paths of the multiplications
+                    z = consistent(pth)
+                    if z is None:
+                        bad.append('branches on %r, which is not a zero test of operand coefficients' % ([l for l, _ in pth.labels][:2],))
+                        continue
+                    lhs = subst_zero(PR.t_mul(A, payload), z)
+                    rhs = subst_zero(PR.embed(PR.t_mul(invs[0][1], invs[0][2]), A), z)
                     if not PR.t_eq(lhs, rhs):
-                        bad.append('a * result differs from t * t^-1: ' + PR.first_diff(lhs, rhs))
+                        bad.append(('on the path assuming %s = 0: ' % sorted(z) if z else '') + 'a * result differs from t * t^-1: ' + PR.first_diff(lhs, rhs))
                 if not n_some and not bad:
                     bad.append('no path returns Some')
                 rep.check(not bad, 'RING', inst, 'a * inverse(a) = t * t^-1 identically, t being the element whose inverse is taken in the level below (so the product is 1 whenever that inverse exists)',
